@@ -146,6 +146,8 @@ class Report:
             print(f"VIOLATION property={self.prop} replay={path}")
             print(f"  {it['key'][:200]} [{it['clause']}] {it['detail'][:300]}")
             code = 1
+        with open(os.path.join(VERIF, "replays", self.prop, "_last_new_violations.json"), "w") as f:
+            json.dump([dict(key=it["key"], clause=it["clause"], detail=it["detail"]) for it in new_violations], f, indent=0)
         if len(new_violations) > 50:
             print(f"  ... and {len(new_violations) - 50} more violations (see evidence)")
         n_inc = sum(1 for it in self.items if it["status"] == "inconclusive")
